@@ -198,7 +198,21 @@ func c06HandshakeGen(g *hx.Gen) {
 			cs[g.Rng.Intn(len(cs))].enabled = false
 		}
 		o := hx.Pick(g.Rng, offers)
-		g.Case(aes, c06EncCfgs(cs), hx.HS(hx.Pick(g.Rng, snis)), strconv.Itoa(o.lo), strconv.Itoa(o.hi), hx.HS("pipe"))
+		if g.Rng.Bool() {
+			o = offers[0]
+		}
+		sni := hx.Pick(g.Rng, snis)
+		if g.Rng.Chance(3, 4) {
+			// aim at one of the named sites
+			h := cs[g.Rng.Intn(len(cs))].host
+			if h != "" && h != "0.0.0.0" && h != "::" {
+				sni = strings.ReplaceAll(h, "*", hx.Pick(g.Rng, []string{"x", "y"}))
+				if g.Rng.Chance(1, 4) {
+					sni = strings.ToUpper(sni)
+				}
+			}
+		}
+		g.Case(aes, c06EncCfgs(cs), hx.HS(sni), strconv.Itoa(o.lo), strconv.Itoa(o.hi), hx.HS("pipe"))
 	}
 }
 
